@@ -22,10 +22,12 @@
        handleRPCExecute), modelled in Users.v as programs over the manager's API whose Unlock calls
        run lock.go:33-46 whatever the caller holds: [c15_users_unlock_only_held] and the theorems
        after it, for any number of such users interleaved with the callers above.
-     It remains an assumption for code outside hostd: coreutils' RHP4 server (rhp/v4/server.go:146-150,
-     524-528 and the `defer unlock()` of its handlers — read at the pinned version, the same bracket
-     shape as the RHP3 handlers and covered by the bracket user of Users.v if that reading is
-     right) and any other future caller;
+     - for coreutils' RHP4 server at the pinned version (rhp/v4/server.go: lockContractForRevision
+       146-154 with its release of a non-revisable contract WITHOUT a defer, handleRPCLatestRevision
+       524-528, the `defer unlock()` of the seven revising handlers and every return before and
+       after it), modelled in Users.v as the [UR4] programs — the same theorems, since [ureachable]
+       ranges over them too, and [c15_rhp4_*] at the end of this file.
+     It remains an assumption for any other future caller;
    * atomicity: code under lr.mu, a channel send/receive and the choice made by a select are
      atomic steps; what lies below (Go memory model, runtime channels/select/sync.Mutex) is
      trusted, not modelled;
@@ -35,7 +37,7 @@
      terminate); the eventuality itself on the Go scheduler is the part the model cannot carry,
      hence [c15_waiter_progress_partial]. *)
 From HostdBase Require Import Base.
-From HostdLock Require Import Model Proofs Proofs2 Proofs3 Proofs4 Users ProofsUsers.
+From HostdLock Require Import Model Proofs Proofs2 Proofs3 Proofs4 Users ProofsUsers ProofsUsers4.
 Local Open Scope Z_scope.
 
 (** At most one caller holds the lock of a given contract at any time.  ([holds i th]: th is in
@@ -328,13 +330,15 @@ Example c15_check_nonvacuous :
   = [([SIdle; SWait 5%N; SHold 5%N], [(5%N, 2, 0)]); ([SIdle; SMgrErr; SHold 5%N], [(5%N, 1, 0)])].
 Proof. vm_compute; reflexivity. Qed.
 
-(** * The users of the lock outside host/contracts: RHP2 sessions, RHP3 (and RHP4) handlers
+(** * The users of the lock outside host/contracts: RHP2 sessions, RHP3 handlers, RHP4 handlers
 
     Users.v composes the locker model with programs: an RHP2 session per connection (state
     machine over s.contract: Lock RPC accepted / refused at each check, Unlock RPC, any other RPC
     succeeding or failing, renew-and-clear, connection close, the deferred release at session end),
-    bracketed handlers (`Lock; if err return; defer Unlock`), and free callers (everything of
-    Model.v).  [ureachable us]: us is reached from a system of ANY number of such users, all at
+    bracketed RHP3 handlers (`Lock; if err return; defer Unlock`), the RHP4 handlers of coreutils'
+    server ([UR4], see the end of this file), and free callers (everything of Model.v) — users of all
+    three protocols in any mix and on the same contract ids: hostd has ONE lock table keyed by contract id
+    and a renter may name any id in any protocol.  [ureachable us]: us is reached from a system of ANY number of such users, all at
     their start, by ANY finite interleaving of their steps, on any contract ids.  A user's
     Manager.Unlock(i) is [raw_unlock]: the code of locker.Unlock looking up i whoever calls it. *)
 
@@ -494,4 +498,97 @@ Example c15_users_nonvacuous :
   = [([OF SIdle; OSLoop 5%N; OBWait 5%N], [(5%N, 2, 0)]);
      ([OF SIdle; OSLoop 5%N; OBIdle], [(5%N, 1, 0)]);
      ([OF SIdle; OSEnded; OBIdle], [])].
+Proof. vm_compute; reflexivity. Qed.
+
+(** * coreutils' RHP4 server as a lock user (WP-H)
+
+    Users.v [UR4]: one program per RHP4 stream, for the eight handlers that call
+    Contractor.LockV2Contract (free / append sectors, fund / replenish accounts, sector roots,
+    refresh, renew through lockContractForRevision; latest revision directly): returns before the
+    lock, the Lock call (context.Background(): not cancellable), the manager's error return, the
+    Revisable check with its direct unlock(), `defer unlock()`, the body up to the read of the
+    renter's second message (the handler then holds the lock until the renter answers, hangs up
+    or the stream's deadline passes) or to an early return, the rest, the deferred unlock().
+    All [c15_users_*] theorems above hold for systems containing such handlers: [ureachable]
+    ranges over lists of users that mix them with RHP2 sessions, RHP3 handlers and free callers.
+    What is particular to RHP4: *)
+
+(** From the return of LockV2Contract to its release an RHP4 handler's goroutine IS the holder of
+    the contract it named (so [c15_users_mutual_exclusion] makes it the only user of any protocol that
+    has that contract); a handler that has not locked or has returned is attached to no lock. *)
+Theorem c15_rhp4_past_lock_is_holder : forall us t p th,
+  ureachable us -> nth_error (uusers us) t = Some (UR4 p) -> nth_error (ths (ubase us)) t = Some th ->
+  (r4_past_lock p = true -> tpc th = Holding (r4_id p)) /\ (p = R4Idle -> tpc th = Idle).
+Proof. exact r4_past_lock_is_holder. Qed.
+Print Assumptions c15_rhp4_past_lock_is_holder.
+
+(** An RHP4 handler calls unlock() at three places only — the Revisable check failing
+    (server.go:150), latest revision (528), the deferred call at a return — each time for the id
+    it locked, and its program is finished with the lock afterwards ... *)
+Theorem c15_rhp4_unlock_sites : forall lg p x th u' i,
+  user_step lg (UR4 p) x th = Some (u', CUnlock i) ->
+  u' = UR4 R4Idle /\
+  ((exists k rv, p = R4Got k i rv /\ x = R4Check /\ (k = K4Latest \/ rv = false))
+   \/ (exists k, p = R4Ret k i /\ x = R4Defer)).
+Proof. exact r4_unlock_sites. Qed.
+Print Assumptions c15_rhp4_unlock_sites.
+
+(** ... where the only things it can do are return before the lock or take a new request: no
+    second unlock() of a hold. *)
+Theorem c15_rhp4_no_second_unlock : forall lg x th u' c,
+  user_step lg (UR4 R4Idle) x th = Some (u', c) ->
+  (exists k, x = R4Pre k /\ u' = UR4 R4Idle /\ c = CNone)
+  \/ (exists k i b rv, x = R4Enter k i b rv /\ u' = UR4 (R4Call k i rv) /\ c = CLock i false b).
+Proof. exact r4_idle_steps. Qed.
+Print Assumptions c15_rhp4_no_second_unlock.
+
+(** Each of the three releases is enabled whenever the handler stands before it, IS the holder's
+    Unlock of the locker model (no panic, no blocked send, one holder before and none after:
+    [c15_unlock_only_by_holder]), and leaves the handler returned and its goroutine idle. *)
+Theorem c15_rhp4_release_completes : forall us t p i x,
+  ureachable us -> nth_error (uusers us) t = Some (UR4 p) -> r4_releasing i p = Some x ->
+  exists us' th', ustep us (UAct t x) = Some us'
+                  /\ step (ubase us) (AUnlock t) = Some (ubase us')
+                  /\ nth_error (uusers us') t = Some (UR4 R4Idle)
+                  /\ nth_error (ths (ubase us')) t = Some th' /\ tpc th' = Idle.
+Proof. exact r4_release_completes. Qed.
+Print Assumptions c15_rhp4_release_completes.
+
+(** No return path keeps the lock: from every point of an RHP4 handler after LockV2Contract has
+    returned nil — whatever the other users do meanwhile having led to this state — the handler's own
+    steps [r4_exit p] (for a handler blocked reading from the renter: the end of that read, which
+    the stream deadline forces) are enabled one after the other and end with the handler
+    returned, its goroutine attached to no lock. *)
+Theorem c15_rhp4_every_path_releases : forall us t p,
+  ureachable us -> nth_error (uusers us) t = Some (UR4 p) -> r4_has_lock p = true ->
+  exists us' th', urun us (map (UAct t) (r4_exit p)) = Some us'
+                  /\ nth_error (uusers us') t = Some (UR4 R4Idle)
+                  /\ nth_error (ths (ubase us')) t = Some th' /\ tpc th' = Idle.
+Proof. exact r4_every_path_releases. Qed.
+Print Assumptions c15_rhp4_every_path_releases.
+
+(** A queued RHP4 handler is neither cancelled nor lost: whatever step the system takes, it is
+    still the same request, and its goroutine is still in the queue of the same lock object or
+    has been handed the lock ([acquired]: holding, or on the manager's error path when the id is
+    no v2 contract).  (That a waiter of a free lock can always take it is [c15_waiter_progress_partial] through
+    [c15_users_executions_are_locker_executions].) *)
+Theorem c15_rhp4_waiter_only_served : forall us a us' t k i rv th j ad,
+  ureachable us -> nth_error (uusers us) t = Some (UR4 (R4Call k i rv)) ->
+  nth_error (ths (ubase us)) t = Some th -> tpc th = Waiting j ad ->
+  ustep us a = Some us' ->
+  j = i /\ nth_error (uusers us') t = Some (UR4 (R4Call k i rv)) /\
+  exists th', nth_error (ths (ubase us')) t = Some th' /\ (th' = th \/ th' = acquired th i).
+Proof. exact r4_waiter_only_served. Qed.
+Print Assumptions c15_rhp4_waiter_only_served.
+
+(* non-vacuity: users of all three protocols and a free caller on ONE contract id — an RHP2 session
+   holds 5; an RHP3 handler, an RHP4 append and an RHP4 latest-revision request for the same id
+   (no v2 contract: the manager's error path) queue up; the session's connection drops. *)
+Example c15_rhp4_nonvacuous :
+  mixed_obs =
+  [([OSEnded; OBWait 5%N; OBHeld 5%N; OBWait 5%N; OF SIdle], [(5%N, 3, 0)]);
+   ([OSEnded; OBWait 5%N; OBHeld 5%N; OBIdle; OF SIdle], [(5%N, 2, 0)]);
+   ([OSEnded; OBIdle; OBHeld 5%N; OBWait 5%N; OF SIdle], [(5%N, 2, 0)]);
+   ([OSEnded; OBIdle; OBHeld 5%N; OBIdle; OF SIdle], [(5%N, 1, 0)]);
+   ([OSEnded; OBIdle; OBIdle; OBIdle; OF SIdle], [])].
 Proof. vm_compute; reflexivity. Qed.
